@@ -569,10 +569,37 @@ def run_orch(tier, seed, spec, col):
                            kw["genotype_i"].copy(), kw["genotype_j"].copy(), float(out[0]), float(out[1])))
             return out
 
+        # every OTHER move kernel of the two modules that takes a temperature (base_step, interval_step ...): a refactored
+        # loop may call them directly instead of through compound_step; they are recorded with their defaults applied
+        import inspect
+
+        extra = []
+        for mod in (mutation, structural):
+            for nm in dir(mod):
+                fn = getattr(mod, nm)
+                if nm == "compound_step" or not hasattr(fn, "py_func"):
+                    continue
+                try:
+                    sig = inspect.signature(fn.py_func)
+                except (TypeError, ValueError):
+                    continue
+                if "temp" not in sig.parameters or "genotype" not in sig.parameters:
+                    continue
+
+                def make(nm=nm, fn=fn, sig=sig, modname=mod.__name__.rsplit(".", 1)[-1]):
+                    def w_other(*a, **kw):
+                        b = sig.bind(*a, **kw)
+                        b.apply_defaults()
+                        llk_in = b.arguments.get("llk", float("nan"))
+                        events.append(("other", float(b.arguments["temp"]), float(llk_in), np.array(b.arguments["genotype"]).copy(), "%s.%s" % (modname, nm)))
+                        return fn(*b.args, **b.kwargs)
+                    return w_other
+
+                extra.append((mod, nm, make()))
         steps = 25
         np.random.seed(int(rng.integers(2**31)))
         break_dist = mcmc._point_beta_probabilities(n_pos, 1.0, 3.0)
-        with monitors.patched((mutation, "compound_step", w_mut), (structural, "compound_step", w_struct), (mcmc, "chain_swap_step", w_swap)):
+        with monitors.patched((mutation, "compound_step", w_mut), (structural, "compound_step", w_struct), (mcmc, "chain_swap_step", w_swap), *extra):
             gt, lt = mcmc._denovo_assembler.py_func(
                 genotype=g0.copy(), inbreeding=I["F"], reads=I["reads"], read_counts=I["counts"],
                 n_alleles=I["n_alleles"].astype(np.int64), steps=steps, break_dist=break_dist,
@@ -604,6 +631,13 @@ def run_orch(tier, seed, spec, col):
                 iv = ev[5]
                 if not (iv[0, 0] == 0 and iv[-1, 1] == n_pos and np.all(iv[1:, 0] == iv[:-1, 1]) and np.all(iv[:, 1] > iv[:, 0])):
                     col.violation("intervals-not-a-partition", "structural call received intervals %s for %d sites" % (iv.tolist(), n_pos), rep)
+            elif ev[0] == "other":
+                col.count("orch_direct_move_calls")
+                if ev[1] != cur_temp:
+                    col.violation("chain-given-wrong-temperature", "%s called directly by the sampler loop with temp %r (defaults applied), chain temperature is %r" % (ev[4], ev[1], cur_temp), rep)
+                wl = tgt.llk(ev[3])
+                if not math.isnan(ev[2]) and abs(ev[2] - wl) > 1e-9 * max(1, abs(wl)):
+                    col.violation("chain-likelihood-out-of-step", "%s received llk %.12g, genotype has %.12g" % (ev[4], ev[2], wl), rep)
             else:
                 col.count("orch_swap_calls")
                 _, Ti, Tj, li, lj, gi, gj, gi2, gj2, oi, oj = ev
